@@ -438,6 +438,10 @@ func verifyAndFillConfig(cfg *ResponseConfig, nowMS int) error {
 			return fmt.Errorf("timeShiftBufferDepth %ds is not less than %ds", tsbd, MAX_TIME_SHIFT_BUFFER_DEPTH_S)
 		}
 	}
+	if cfg.StartNr != nil && (*cfg.StartNr < 0 || *cfg.StartNr > math.MaxUint32) {
+		// Segment numbers are 32-bit (mfhd sequence_number)
+		return fmt.Errorf("start number (snr) must be in the range 0 to %d", uint32(math.MaxUint32))
+	}
 	if cfg.PeriodsPerHour != nil && (*cfg.PeriodsPerHour < 1 || *cfg.PeriodsPerHour > 3600) {
 		return fmt.Errorf("periods per hour must be in the range 1 to 3600")
 	}
